@@ -411,6 +411,21 @@ async fn conn_task(host: String, mut s: TcpStream) {
         }
 
         let nstmts_before = sess.stmts.len();
+        // an erroring server: the statement text gains the directive that makes it fail
+        let m = if *beh_rx.borrow() == Behaviour::Errors && (m.ty == b'Q' || m.ty == b'P') {
+            let mut body = m.body.clone();
+            let mut nul = body.iter().position(|b| *b == 0);
+            if m.ty == b'P' {
+                nul = nul.and_then(|i| body[i + 1..].iter().position(|b| *b == 0).map(|j| i + 1 + j));
+            }
+            if let Some(i) = nul {
+                let ins = b" /* sim_error() */";
+                body.splice(i..i, ins.iter().cloned());
+            }
+            Msg { ty: m.ty, body }
+        } else {
+            m
+        };
         let outcome = sess.handle(&m, seq, cancelled);
         // move statement records into the history
         if sess.stmts.len() > nstmts_before || !sess.stmts.is_empty() {
